@@ -9,7 +9,7 @@ CHECKS = {
         engine="E2+E3",
         cat="model_checking",
         technique="exhaustive enumeration of structured seed alphabets and complete 2^24/2^32 sub-cubes in lock-step with a reference model; GF(2) transition matrix extracted from the code compared with the reference matrix and bound by weight<=2/3 conformance replay",
-        text="Every non-zero seed of the alphabets O/W1/W2/WZ/BYTE, dense chained seeds, all carry-operand products and complete sub-cubes of each scrambler operand are stepped in lock-step with an independent transcription of the Blackman-Vigna C sources (output and successor state); for the 14 linear engines the transition matrix extracted from the implementation equals the reference matrix, which extends the step comparison to all 2^n states of the linear model. Added since: value-directed states (reference scramblers inverted for outputs 0 / all ones / half-zero; T^k preimages of special states for k = 255, 256, 65535, 65536; SplitMix64 counters -j*PHI), operands on which a multiplication split into partial products has a deciding carry (first and second stage of the * and ** scramblers), lock-step chains of 2^17+64 steps. Rounds 5-6: SplitMix64 counters for which an intermediate value of either finaliser (after each xor-shift and multiply) is zero / small / just above 2^32 or 2^33 / all ones, both output widths compared with the reference. Round 7: a second, lighter pass in a plain optimised build of the harness (no overflow checks, no debug assertions): code behind cfg!(debug_assertions) exists in only one of the two builds.",
+        text="Every non-zero seed of the alphabets O/W1/W2/WZ/BYTE, dense chained seeds, all carry-operand products and complete sub-cubes of each scrambler operand are stepped in lock-step with an independent transcription of the Blackman-Vigna C sources (output and successor state); for the 14 linear engines the transition matrix extracted from the implementation equals the reference matrix, which extends the step comparison to all 2^n states of the linear model. Added since: value-directed states (reference scramblers inverted for outputs 0 / all ones / half-zero; T^k preimages of special states for k = 255, 256, 65535, 65536; SplitMix64 counters -j*PHI), operands on which a multiplication split into partial products has a deciding carry (first and second stage of the * and ** scramblers), lock-step chains of 2^17+64 steps. Rounds 5-6: SplitMix64 counters for which an intermediate value of either finaliser (after each xor-shift and multiply) is zero / small / just above 2^32 or 2^33 / all ones, both output widths compared with the reference. Round 7: a second, lighter pass in a plain optimised build of the harness (no overflow checks, no debug assertions): code behind cfg!(debug_assertions) exists in only one of the two builds. Round 8: operands whose first partial product of the ** scramblers is special (zero / all ones / 2^32 boundary), solved by inverting the odd multipliers.",
         note="reference models from the published sources, self-validated against published vectors on every run; linearity of the engine beyond weight 2 (quick) / 3 (thorough) for the all-states claim; scrambler inputs outside the enumerated sub-cubes are not covered for the 64-bit two-operand adders",
         ref="4/C01"),
     "C04": dict(
@@ -21,13 +21,13 @@ CHECKS = {
     "C06": dict(
         engine="E3", cat="model_checking",
         technique="step, jump and long_jump matrices extracted from the code on all basis states; J = T^(2^(n/2)) and L = T^(2^(3n/4)) decided by repeated squaring for all 2^n states; exhaustive low-weight conformance replay and direct commutation checks on the real code",
-        text="For each of the 12 jump-capable types the three GF(2) matrices are extracted from the implementation and the jump identities are decided on that model for every state; predictions are replayed on all weight-2 (and weight-3 where stated) states, and the linearity-free relations jump/step/long_jump commute are enumerated directly on the code. Added since: states whose jump / long_jump image has a special word pattern (zero word, equal words, sum zero), solved on the extracted matrices and replayed on the code. Rounds 5-6: the jump polynomial is recovered from the extracted step matrix; states are solved so that (a) the accumulator after every word boundary of the polynomial and (b) the running state T^i s at every step i = 1..n-1 has a special word pattern, and jump / long_jump from them are compared with the matrix power.",
+        text="For each of the 12 jump-capable types the three GF(2) matrices are extracted from the implementation and the jump identities are decided on that model for every state; predictions are replayed on all weight-2 (and weight-3 where stated) states, and the linearity-free relations jump/step/long_jump commute are enumerated directly on the code. Added since: states whose jump / long_jump image has a special word pattern (zero word, equal words, sum zero), solved on the extracted matrices and replayed on the code. Rounds 5-6: the jump polynomial is recovered from the extracted step matrix; states are solved so that (a) the accumulator after every word boundary of the polynomial and (b) the running state T^i s at every step i = 1..n-1 has a special word pattern, and jump / long_jump from them are compared with the matrix power. Round 8: states that jump / long_jump leave unchanged in one word (kernel of a word row of J xor I), solved on the extracted matrices and replayed; a jump that panics counts only where stepping from the same state does not.",
         note="linearity beyond the replayed weights; state image via the crates' serde feature validated by from_seed(image) == generator",
         ref="4/C06"),
     "C07": dict(
         engine="E3", cat="model_checking",
         technique="order of the GF(2) transition matrix extracted from the code: rank n, T^(2^n) = T, T^((2^n-1)/p) != I for all 13 prime factors; conformance replay binds the matrix to the code; collisions searched on the real code when binding fails",
-        text="ord(T) = 2^n - 1 for the matrix extracted from the implementation is equivalent to the non-zero states forming one cycle of length 2^n - 1; it is decided for all 15 linear types (7 distinct engines) and the matrix is bound to the code by exhaustive low-weight replay. A singular or non-linear step is turned into a concrete colliding pair of states on the real code. Added since: the API clause checked directly (from_seed alphabet, seed_from_u64 over the u64 alphabet incl. SplitMix64 zero-output preimages, from_rng over sources with up to 65536 leading all-zero blocks never yield the zero state), value-directed deep states. Rounds 5-6: the API clause also over try_from_rng. Round 7: a seedless constructor (Default), if the type has one, is checked like every other seeding path.",
+        text="ord(T) = 2^n - 1 for the matrix extracted from the implementation is equivalent to the non-zero states forming one cycle of length 2^n - 1; it is decided for all 15 linear types (7 distinct engines) and the matrix is bound to the code by exhaustive low-weight replay. A singular or non-linear step is turned into a concrete colliding pair of states on the real code. Added since: the API clause checked directly (from_seed alphabet, seed_from_u64 over the u64 alphabet incl. SplitMix64 zero-output preimages, from_rng over sources with up to 65536 leading all-zero blocks never yield the zero state), value-directed deep states. Rounds 5-6: the API clause also over try_from_rng. Round 7: a seedless constructor (Default), if the type has one, is checked like every other seeding path. Round 8: the stepping clause is also checked directly: no enumerated non-zero state (alphabets, value-directed states, API results) reaches the zero state within 4 steps.",
         note="primality of the factors of 2^512-1 (Miller-Rabin 40 bases + product check each run); linearity beyond replayed weights",
         ref="4/C07"),
     "C02": dict(
@@ -45,13 +45,13 @@ CHECKS = {
     "C05": dict(
         engine="E1", cat="model_checking",
         technique="explicit-state BFS over all next_u32/next_u64/fill_bytes(n) histories up to a depth on the real code in product with a bookkeeping model, merged on (words consumed, half pending) after a state-equality check, from every buffer offset",
-        text="All interleavings up to depth 4 (quick) / 6 (thorough) of the three output calls over 18-20 lengths are executed on the real generators from every start offset of a block; each returned value must be the stated projection of the words an identically seeded native-width twin returns, and the block+2 following words must continue the twin's stream. Added since: depth 2 from every buffer index of the block generators (with and without a pending half), destinations that do not start on a word boundary (fill_bytes into a misaligned slice), bulk lengths 8192 / 8197, starts 1000 / 65536 blocks deep and at call counts around 2^8 / 2^16, starts right before rare stream events, JitterRng with value-directed pools, coarse clocks and long runs of stuck measurements. Rounds 5-6: value-directed projection starts (carry- and multiplication-boundary operands of the scramblers), every one- and two-bit state of the generators with n <= 128 bits, JitterRng with rounds 127..255, requests of 64 KiB+3 and 1 MiB+5 bytes.",
+        text="All interleavings up to depth 4 (quick) / 6 (thorough) of the three output calls over 18-20 lengths are executed on the real generators from every start offset of a block; each returned value must be the stated projection of the words an identically seeded native-width twin returns, and the block+2 following words must continue the twin's stream. Added since: depth 2 from every buffer index of the block generators (with and without a pending half), destinations that do not start on a word boundary (fill_bytes into a misaligned slice), bulk lengths 8192 / 8197, starts 1000 / 65536 blocks deep and at call counts around 2^8 / 2^16, starts right before rare stream events, JitterRng with value-directed pools, coarse clocks and long runs of stuck measurements. Rounds 5-6: value-directed projection starts (carry- and multiplication-boundary operands of the scramblers), every one- and two-bit state of the generators with n <= 128 bits, JitterRng with rounds 127..255, requests of 64 KiB+3 and 1 MiB+5 bytes. Round 8: call paths that reach one stream position but do not compare equal are kept as separate states and explored further (their outputs decide; a failed == is C10's).",
         note="word values come from the implementation twin (relational oracle); projections transcribed from the property; depth bound; JitterRng with scripted non-stuck timers only",
         ref="4/C05"),
     "C10": dict(
         engine="E1", cat="model_checking",
         technique="exhaustive enumeration of history states (depth 2-3, all start offsets, 3+k seeds); every state cloned and every pair of states compared with ==, equal pairs run under all continuations of depth 2",
-        text="For 20 generator types and the three public cores, every reachable state of the bounded history space is cloned and the clone compared with a replayed original under all continuations; every pair of states (millions) is compared with == and equal pairs must have identical futures; IsaacArray equality is probed slot by slot. Added since: Clone::clone_from into a fresh generator and into a generator in another state, states at every buffer index, serde-image neighbours (every single-byte change of a state's image: a neighbour that compares equal must have the same future), native-width twins, clones around call counts 2^8 / 2^16, clones at rare stream events, 2^17 / 2^18-state birthday pair sets for Hc128Core. Rounds 5-6: every == is accompanied by != (must be its negation); block cores keep a persistent results buffer for word reads, get a fresh one per block in fill_bytes, and a clone starts with a fresh buffer. Round 7: comparisons that panic inside the crate are reported, not crashed on.",
+        text="For 20 generator types and the three public cores, every reachable state of the bounded history space is cloned and the clone compared with a replayed original under all continuations; every pair of states (millions) is compared with == and equal pairs must have identical futures; IsaacArray equality is probed slot by slot. Added since: Clone::clone_from into a fresh generator and into a generator in another state, states at every buffer index, serde-image neighbours (every single-byte change of a state's image: a neighbour that compares equal must have the same future), native-width twins, clones around call counts 2^8 / 2^16, clones at rare stream events, 2^17 / 2^18-state birthday pair sets for Hc128Core. Rounds 5-6: every == is accompanied by != (must be its negation); block cores keep a persistent results buffer for word reads, get a fresh one per block in fill_bytes, and a clone starts with a fresh buffer. Round 7: comparisons that panic inside the crate are reported, not crashed on. Round 8: the block cores are also placed at an address that is 4 but not 8 modulo 8 (a wrapper with a leading u32), so clones / comparisons of cores are exercised at both alignments.",
         note="bounded history depth and continuation depth; states rebuilt by replay (no reliance on Clone)",
         ref="4/C10"),
     "C11": dict(
@@ -63,7 +63,7 @@ CHECKS = {
     "C17": dict(
         engine="E1", cat="model_checking",
         technique="exhaustive enumeration of histories (depth 3-4, all start offsets) x 5 seeds: Debug texts compared pairwise across seeds and scanned for every state/buffer/output word taken from the implementation",
-        text="{:?} and {:#?} of the eight state-hiding types are byte-identical across seeds for every enumerated history and contain none of the words of the state image, the seed, the pool or the next two blocks of output; JitterRng gives one single text over all histories, timers and pool values. Added since: 68 timers with one deviation (17 kinds x 4 positions), runs of 1..1030 stuck measurements, value-directed pools, states at every buffer index, Debug text at rare stream events against another seed at the same position. Rounds 5-6: XorShiftRng states that have, or reach within two steps, a special word pattern.",
+        text="{:?} and {:#?} of the eight state-hiding types are byte-identical across seeds for every enumerated history and contain none of the words of the state image, the seed, the pool or the next two blocks of output; JitterRng gives one single text over all histories, timers and pool values. Added since: 68 timers with one deviation (17 kinds x 4 positions), runs of 1..1030 stuck measurements, value-directed pools, states at every buffer index, Debug text at rare stream events against another seed at the same position. Rounds 5-6: XorShiftRng states that have, or reach within two steps, a special word pattern. Round 8: two generators of one type with different seeds at the same buffer position after different numbers of generated blocks must print the same text.",
         note="bounded depth; secret words >= 2^16 only (smaller values collide with the public index)",
         ref="4/C17"),
     "C08": dict(
@@ -75,7 +75,7 @@ CHECKS = {
     "C09": dict(
         engine="E2+E4", cat="fault_enumeration",
         technique="exhaustive enumeration of (leading zero blocks, first failing source call, fault mode) for an instrumented TryRngCore source, of byte-probe source scripts, and of u64 arguments (alphabet, ranges, complete sub-cubes) against the documented expansions",
-        text="For all 20 seedable types seed_from_u64(x) equals from_seed of the documented expansion, from_rng builds exactly the generator of the bytes the source delivered and leaves the source advanced by exactly one seed's worth (redraws for XorShiftRng only), and try_from_rng returns the same generator for a source that does not fail and the source's own error for every (failing call, fault mode) that precedes acceptance. Added since: the three public block cores as seedable types of their own, up to 65536 leading zero blocks, partial-write fault mode, documented-constant blocks. Rounds 5-6: special-pattern source blocks; every generator type seeded from every generator type of the crates (from_rng(&mut parent)), child and parent both compared with twins; ISAAC generators identified independently of the serde layout.",
+        text="For all 20 seedable types seed_from_u64(x) equals from_seed of the documented expansion, from_rng builds exactly the generator of the bytes the source delivered and leaves the source advanced by exactly one seed's worth (redraws for XorShiftRng only), and try_from_rng returns the same generator for a source that does not fail and the source's own error for every (failing call, fault mode) that precedes acceptance. Added since: the three public block cores as seedable types of their own, up to 65536 leading zero blocks, partial-write fault mode, documented-constant blocks. Rounds 5-6: special-pattern source blocks; every generator type seeded from every generator type of the crates (from_rng(&mut parent)), child and parent both compared with twins; ISAAC generators identified independently of the serde layout. Round 8: bare cores whose snapshot has another layout are compared on behaviour (two generated blocks against the reference).",
         note="expansion models (SplitMix64, PCG32, ISAAC one/two-pass init) written independently; ISAAC generators compared by serde image of the fresh core",
         ref="4/C09"),
     "C12": dict(
@@ -87,7 +87,7 @@ CHECKS = {
     "C13": dict(
         engine="E4", cat="model_checking",
         technique="exhaustive enumeration of complete 1601-reading timer scripts (every variation sum 1..6000 and every log2 boundary, threshold scripts, all periodic delta patterns of period <= 3/4) against an oracle computed from the statement",
-        text="For every enumerated timer, Ok(r) is returned only when no documented failure condition holds, with 1 <= r <= 128, r*bitlen(mean) >= 128 and set_rounds(r) not panicking; every Err names a condition that holds on the script. Every table value of r and every TimerError variant is observed. Added since: threshold families straddling every limit (stuck 270/271 incl. ties that exist only in wrapping 32-bit arithmetic, multiples of 100 on backward probes and with raw 2^32 offsets, backward counts, variation sums around 600 and 4800 on the (stuck, sum) grid), each also after a previous test_timer / next_u64 on the same object. Rounds 5-6: staircase scripts (every delta repeated r times then stepped), and the Display text of a returned error must not name a documented condition that does not hold. Round 7: differences of 2^63 and more inside a probe, a counter that wraps around inside a probe, variation sums 4560..4860 with 1..3 backward probes.",
+        text="For every enumerated timer, Ok(r) is returned only when no documented failure condition holds, with 1 <= r <= 128, r*bitlen(mean) >= 128 and set_rounds(r) not panicking; every Err names a condition that holds on the script. Every table value of r and every TimerError variant is observed. Added since: threshold families straddling every limit (stuck 270/271 incl. ties that exist only in wrapping 32-bit arithmetic, multiples of 100 on backward probes and with raw 2^32 offsets, backward counts, variation sums around 600 and 4800 on the (stuck, sum) grid), each also after a previous test_timer / next_u64 on the same object. Rounds 5-6: staircase scripts (every delta repeated r times then stepped), and the Display text of a returned error must not name a documented condition that does not hold. Round 7: differences of 2^63 and more inside a probe, a counter that wraps around inside a probe, variation sums 4560..4860 with 1..3 backward probes. Round 8: every script also after a previous successful test_timer on a healthy timer on the same object.",
         note="conditions computed from the readings on the documented schedule (confirmed on the run); genuine defect fixed in 048a21d (Ok(0) for mean 1)",
         ref="4/C13"),
     "C14": dict(
@@ -99,13 +99,13 @@ CHECKS = {
     "C15": dict(
         engine="E3", cat="model_checking",
         technique="affine GF(2) models of the LFSR fold (pool x time), the stir step and six whole-collection maps extracted from the code through the pool hook; ranks decided on the model; conformance replay on all inputs of weight <= 2/3; colliding inputs solved for and confirmed on the real code when the model does not bind",
-        text="rank 64 of the pool part and of the time part of the fold, of the stir step and of every pool->output collection map means each is one-to-one for all 2^64 values; the models are bound to the code by exhaustive low-weight replay, and a non-linear or rank-deficient mixer is reported with two concrete colliding inputs. Added since: two-call maps (timer_stats then a collection, two collections, a fold after a previous fold - anything a call remembers for the next), collections with a stuck priming measurement and with runs of 9..1030 stuck measurements, maps through clone() / clone_from(), inputs solved for special outputs. Rounds 5-6: pool -> pool maps over whole test_timer calls (Ok and each failure mode) and over a fold with a half word pending.",
+        text="rank 64 of the pool part and of the time part of the fold, of the stir step and of every pool->output collection map means each is one-to-one for all 2^64 values; the models are bound to the code by exhaustive low-weight replay, and a non-linear or rank-deficient mixer is reported with two concrete colliding inputs. Added since: two-call maps (timer_stats then a collection, two collections, a fold after a previous fold - anything a call remembers for the next), collections with a stuck priming measurement and with runs of 9..1030 stuck measurements, maps through clone() / clone_from(), inputs solved for special outputs. Rounds 5-6: pool -> pool maps over whole test_timer calls (Ok and each failure mode) and over a fold with a half word pending. Round 8: a map that cannot be evaluated (script exhausted, panic inside the call) is undecided, not a verdict.",
         note="hook (feature rngs_verif) reads/writes the pool; linearity beyond replayed weights",
         ref="4/C15"),
     "C16": dict(
         engine="E1xE4", cat="model_checking",
         technique="all histories of depth 4/5 over output calls and clone / clone_from operations for rounds 1,2,3,64,255 on scripted timers (benign, value-directed pools, long stuck runs); each step checked for its value against a native-width twin and for the number of timer readings on the generator's own cursor",
-        text="Two consecutive next_u32 return low then high half of one collected value with the timer read only during the first; every other output call performs a fresh collection of the expected number of readings; a clone's first output always comes from a fresh collection. The one literal deviation (fill_bytes of 1..4 bytes with a half pending reuses the half, by design of the crate) is a recorded known finding. Added since: Clone::clone_from into a fresh generator and into one with a half of its own pending, value-directed pools (first collected word zero / zero half / relations between two successive words), timers with runs of 31..1030 stuck measurements in the first three collections (reading counts taken per collection from the native twin); a clone's expected values come from a native-width twin built from the clone's own pool, so only the stated relation is demanded. Rounds 5-6: set_rounds steps inside histories (twin re-based), output calls aborted by a failing (panicking) timer at reading 0 / 4 / last with the generator used again afterwards, duplicates made by plain copy where the type is Copy. Round 7: a fresh collection must take at least `rounds` measurements (also on non-monotonic clocks whose stamps return to the collection's first stamp).",
+        text="Two consecutive next_u32 return low then high half of one collected value with the timer read only during the first; every other output call performs a fresh collection of the expected number of readings; a clone's first output always comes from a fresh collection. The one literal deviation (fill_bytes of 1..4 bytes with a half pending reuses the half, by design of the crate) is a recorded known finding. Added since: Clone::clone_from into a fresh generator and into one with a half of its own pending, value-directed pools (first collected word zero / zero half / relations between two successive words), timers with runs of 31..1030 stuck measurements in the first three collections (reading counts taken per collection from the native twin); a clone's expected values come from a native-width twin built from the clone's own pool, so only the stated relation is demanded. Rounds 5-6: set_rounds steps inside histories (twin re-based), output calls aborted by a failing (panicking) timer at reading 0 / 4 / last with the generator used again afterwards, duplicates made by plain copy where the type is Copy. Round 7: a fresh collection must take at least `rounds` measurements (also on non-monotonic clocks whose stamps return to the collection's first stamp). Round 8: scripts carry a reading margin beyond the documented cost; a call that runs past the scripted readings is undecided, not a verdict.",
         note="clones get an identical timer (independent cursor); known finding C16:fill-tail-reuses-pending-half",
         ref="4/C16"),
     "C18": dict(
